@@ -72,6 +72,18 @@ def concretise(cfg, hist, S=S):
     """abstract history (list of steps with key 'u') -> list of vc2bytes unit dicts"""
     sx = cfg.get("sx", S)
     f = vb.Fmt(profile=cfg["prof"], version=cfg["ver"], level=LEVEL_FOR_PAT[cfg["pat"]], fields=bool(cfg["fields"]), slices_x=sx, slices_y=S // sx)
+    # a differing repeated header differs EARLY (frame width: variant 1) in half of the histories that have one and
+    # ONLY IN ITS LAST BITS, at the same length (variant 2), in the other half -- there the header layout is chosen
+    # so that the header ends r = 0..7 bits into its last byte (choice by a hash of the history: replays agree)
+    diff_variant = 1
+    us = [(st["u"] if "u" in st else st) for st in hist]
+    if any(x["k"] == "SH" and not x["same"] for x in us):
+        import json, zlib
+
+        h = zlib.crc32(json.dumps(us, sort_keys=True, default=str).encode())
+        if h % 2:
+            diff_variant = 2
+            f.tail_residue = (h // 2) % 8
     units = []
     c = None
     recv = 0
@@ -85,7 +97,7 @@ def concretise(cfg, hist, S=S):
             d["npo"] = 5
         if k == "SH":
             d["code"] = vb.PC_SH
-            d["payload"] = vb.sequence_header_payload(f, 0 if u["same"] else 1)
+            d["payload"] = vb.sequence_header_payload(f, 0 if u["same"] else diff_variant)
         elif k in ("PIC", "F0"):
             p = u["pn"]
             if p == "a0":
